@@ -140,6 +140,10 @@ def run_connect(case, shared_home=None):
                 hk.add('[%s]:%s' % (host, port), 'ssh-rsa', K['server'])
             elif case['known'] == 'd':
                 hk.add(host, 'ssh-rsa', K['other'])
+            elif case['known'] == 'w':
+                # an OpenSSH pattern line that does NOT apply to this host (negated), and one for another domain
+                hk.add('*.%s,!%s' % (host.split('.', 1)[-1], host), 'ssh-rsa', K['server'])
+                hk.add('*.other.example', 'ssh-rsa', K['server'])
             elif case['known'] == 'i':
                 hk.add('127.0.0.1', 'ssh-rsa', K['server'])
                 hk.add('[127.0.0.1]:%s' % port, 'ssh-rsa', K['server'])
